@@ -513,7 +513,9 @@ def vecWrapAngleNeg(angles: ndarray) -> ndarray:
 
 def vecWrapAngle2Pi(angles: ndarray) -> ndarray:
     r"""Force angle into range of :math:`[0, 2\pi)`."""
-    return np.where(angles < 0, const.TWOPI + angles, angles)
+    # [NOTE]: Reduce by whole turns first, so angles outside of (-2pi, 2pi) are handled as well
+    reduced = np.fmod(angles, const.TWOPI)
+    return np.where(reduced < 0, const.TWOPI + reduced, reduced)
 
 
 def vecResiduals(vec1: ndarray, vec2: ndarray, angular: ndarray) -> ndarray:
